@@ -187,7 +187,11 @@ def rule_kb6(repo, col):
     if len(loops) != 1:
         raise AnalysisError("CNF._contents: loop over the literals of a smart constraint not found")
     b = loops[0].target.id
-    app = [norm(c.args[0]).replace(" ", "") for c in ast.walk(loops[0]) if isinstance(c, ast.Call) and norm(c.func) == "clauses.append" and c.args]
+    # evaluated through temporaries: the appended clauses after symbolic substitution
+    lps = dtable.extract_block(loops[0].body, opaque_loops=True)
+    if len(lps) != 1:
+        raise AnalysisError("CNF._contents: the literal loop of a smart constraint branches")
+    app = [a[0].replace(" ", "") for fn, a, _ in lps[0].calls if fn == "clauses.append" and a]
     want_true = "w_max+[-ct(abs(%s)),ind]" % b
     want_false = "w_max+[pt(abs(%s)),ind]" % b
     col.decide("KB6", m, loops[0], want_true in app and want_false in app and len(app) == 2,
